@@ -344,6 +344,7 @@ func (ex *Exec) genericZero(d *smt.Term, depth int) *smt.Term {
 
 // bigEq is the equality of two big integers, aware of group meanings.
 func (ex *Exec) bigEq(a, b BigVal) *smt.Term {
+	a, b = ex.promoteReduced(a, b), ex.promoteReduced(b, a)
 	if a.G != nil && b.G != nil && a.G.Mod == b.G.Mod && a.G.Reduced && b.G.Reduced {
 		eq := ex.facetEq(a.G, b.G)
 		// keep the opaque integer images consistent
